@@ -406,6 +406,9 @@ def rule_x(repo, run):
     from checks import c04, c10, c08
     from sa.report import import_rules
     import_rules(run, R, c04, repo, {"C04.R6"})
+    # values are passed the way the C wrapper takes them (by value / by reference) and struct members sit at the C offsets
+    import_rules(run, R, c04, repo, {"C04.R1"}, only=lambda c: c.endswith(":by-value"))
+    import_rules(run, R, c04, repo, {"C04.R12", "C04.R13"})
     import_rules(run, R, c10, repo, {"C10.R2", "C10.R5"})
     import_rules(run, R, c08, repo, {"C08.R3", "C08.R4"}, only=lambda c: not c.startswith("wrapp."))
     # enumerators are passed as argument values: the Fortran parameters must carry the C++ values (C11.R1, C11.R2)
